@@ -5,12 +5,12 @@ from . import translate as T
 
 ID = 'C15'
 HERE = os.path.dirname(os.path.abspath(__file__))
-CASES = {'quick': 3000, 'thorough': 40000}
+CASES = {'quick': 6000, 'thorough': 60000}
 PARALLEL = True
 PROOF_TIMEOUT = 900
 ALLOWED_AXIOMS = ()
 RULE = ('nested schedules over {lookup, register, replace}: up to 6 top-level operations, operations injected at every '
-        'internal step of an in-progress lookup (before each adapter query, before the lock, after the lock) and between '
+        'internal step of an in-progress lookup (after the attribute read, before each adapter query, before the lock, after the lock) and between '
         'the two steps of a registration, nesting <= 3; systematic family (one injection at every point of a cold/warm lookup) '
         '+ random; non-trivial = some lookup returned a view and at least one operation ran inside another; distinct by full case')
 ASSUMPTIONS = ['every instruction of the translated programs (attribute read/rebind, dict get/set, one adapter-registry query, '
@@ -33,7 +33,7 @@ LEVEL_NOTE = ('Trusted: Coq kernel; instruction semantics and atomicity granular
 I_INTERFACE, I_REQUEST, I_ROUTE, I_COMBINED = 0, 1, 2, 3
 CTX = {'O': 10, 'A': 11, 'B': 12, 'C': 13, 'D': 14, 'E': 15}
 NAMES = ['', 'x']
-PT_LOCK, PT_UNLOCK = 100, 101
+PT_LOCK, PT_UNLOCK, PT_GET = 100, 101, 102
 
 
 # ------------------------------------------------------------ facts
@@ -98,14 +98,14 @@ def facts(src):
 
 # ------------------------------------------------------------ cases
 # lookup   : {'t':'L', 'req':1|2|3, 'ctx':'A'.., 'name':0|1, 'inj':[[point,[ops]],...]}
-# register : {'t':'R', 'rq':1|2, 'ctx':None|'A'.., 'name':0|1, 'sec':0|1, 'tag':int, 'inj':[ops]}
+# register : {'t':'R', 'rq':1|2, 'ctx':None|'A'.., 'name':0|1, 'sec':0|1, 'tag':int, 'inj':[ops before the clear], 'inj2':[ops after it]}
 # case     : {'init':[register ops without inj], 'ops':[ops]}
 def L(req, ctx, name=0, inj=None):
     return {'t': 'L', 'req': req, 'ctx': ctx, 'name': name, 'inj': inj or []}
 
 
-def Rg(rq, ctx, name, sec, tag, inj=None):
-    return {'t': 'R', 'rq': rq, 'ctx': ctx, 'name': name, 'sec': sec, 'tag': tag, 'inj': inj or []}
+def Rg(rq, ctx, name, sec, tag, inj=None, inj2=None):
+    return {'t': 'R', 'rq': rq, 'ctx': ctx, 'name': name, 'sec': sec, 'tag': tag, 'inj': inj or [], 'inj2': inj2 or []}
 
 
 SRO_LEN = {1: 2, 2: 2, 3: 4, 'A': 3, 'B': 4, 'C': 5, 'D': 4, 'E': 3}
@@ -148,10 +148,12 @@ class Gen:
                 rq = 1 if near['req'] in (1, 3) or rng.random() < 0.3 else 2
         if (rq, ctx, name, sec) not in self.slots:
             self.slots.append((rq, ctx, name, sec))
-        inj = []
+        inj, inj2 = [], []
         if depth < 2 and rng.random() < 0.25:
             inj = [self.lookup(depth + 1) for _ in range(rng.choice([1, 1, 2]))]
-        return Rg(rq, ctx, name, sec, self.fresh(), inj)
+        if depth < 2 and rng.random() < 0.15:
+            inj2 = [self.lookup(depth + 1) for _ in range(rng.choice([1, 1, 2]))]
+        return Rg(rq, ctx, name, sec, self.fresh(), inj, inj2)
 
     def lookup(self, depth=0, like=None):
         rng = self.rng
@@ -165,7 +167,7 @@ class Gen:
         if depth < 3 and rng.random() < (0.65 if depth == 0 else 0.35):
             n = npoints(req, ctx)
             for _ in range(rng.choice([1, 1, 1, 2, 3])):
-                p = rng.choice([rng.randrange(n), rng.randrange(n), 0, n - 1, PT_LOCK, PT_LOCK, PT_UNLOCK])
+                p = rng.choice([rng.randrange(n), rng.randrange(n), 0, n - 1, PT_LOCK, PT_LOCK, PT_UNLOCK, PT_GET, PT_GET])
                 if any(q == p for q, _ in me['inj']):
                     continue
                 ops = []
@@ -199,7 +201,7 @@ def systematic():
     out = []
     for req, ctx in ((1, 'A'), (1, 'B'), (3, 'A')):
         n = npoints(req, ctx)
-        for p in list(range(n)) + [PT_LOCK, PT_UNLOCK]:
+        for p in list(range(n)) + [PT_LOCK, PT_UNLOCK, PT_GET]:
             for variant in range(6):
                 init = [Rg(1, 'A', 0, 0, 1)]
                 if variant == 0:      # replacement of the only view, warm cache
@@ -232,7 +234,7 @@ def refuted_schedules():
              'ops': [L(1, 'A', 0, [[PT_LOCK, [Rg(1, 'A', 0, 0, 2)]]]), L(1, 'A')]}
     unguarded = {'init': [], 'ops': [L(1, 'A')]}
     noclear = {'init': [Rg(1, 'A', 0, 0, 1)], 'ops': [L(1, 'A'), Rg(1, 'A', 0, 0, 2), L(1, 'A')]}
-    clear_first = {'init': [Rg(1, 'A', 0, 0, 1)], 'ops': [L(1, 'A'), Rg(1, 'A', 0, 0, 2, [L(1, 'A')]), L(1, 'A')]}
+    clear_first = {'init': [Rg(1, 'A', 0, 0, 1)], 'ops': [L(1, 'A'), Rg(1, 'A', 0, 0, 2, [L(1, 'A')], [L(1, 'A')]), L(1, 'A')]}
     return [stale, unguarded, noclear, clear_first]
 
 
@@ -263,7 +265,7 @@ def targeted(broken, disagreements, rng):
     # the stale-write schedule with the registration at every internal point and for several keys
     for req, ctx in ((1, 'A'), (1, 'C'), (3, 'B')):
         n = npoints(req, ctx)
-        for p in list(range(n)) + [PT_LOCK, PT_UNLOCK]:
+        for p in list(range(n)) + [PT_LOCK, PT_UNLOCK, PT_GET]:
             out.append({'init': [Rg(1, 'A', 0, 0, 1)],
                         'ops': [L(req, ctx, 0, [[p, [Rg(1, 'A', 0, 0, 2)]]]), L(req, ctx)]})
     for d in disagreements[:5]:
@@ -293,7 +295,7 @@ def _ops_ok(ops, depth):
                 return False
             if o.get('sec') not in (0, 1) or not isinstance(o.get('tag'), int) or not (0 < o['tag'] < 10 ** 6):
                 return False
-            if not _ops_ok(o.get('inj'), depth + 1):
+            if not _ops_ok(o.get('inj'), depth + 1) or not _ops_ok(o.get('inj2'), depth + 1):
                 return False
         else:
             return False
@@ -309,7 +311,7 @@ def valid(case):
             return False
         if not _ops_ok(case['init'], 0) or not _ops_ok(case['ops'], 0):
             return False
-        return all(o['t'] == 'R' and not o['inj'] for o in case['init'])
+        return all(o['t'] == 'R' and not o['inj'] and not o['inj2'] for o in case['init'])
     except Exception:
         return False
 
@@ -336,7 +338,7 @@ def _wire_ops(ops, counter):
             inj = [[p, _wire_ops(sub, counter)] for p, sub in o['inj']]
             out.append([0, oid, [o['req'], CTX[o['ctx']], o['name']], inj])
         else:
-            out.append([1, oid, _wire_updates(o), _wire_ops(o['inj'], counter)])
+            out.append([1, oid, _wire_updates(o), _wire_ops(o['inj'], counter), _wire_ops(o['inj2'], counter)])
     return out
 
 
@@ -413,12 +415,31 @@ def setup(tier):
         pass
 
     class Reg(Registry):
-        """public seam: a Registry subclass; runs the scheduled operations just before the cache is cleared"""
+        """public seam: a Registry subclass; runs the scheduled operations just before / just after the cache is cleared"""
         def _clear_view_lookup_cache(self):
-            h = self.__dict__.get('_c15_hook')
+            h = self.__dict__.pop('_c15_hook', None)
             if h is not None:
-                h()
-            return super()._clear_view_lookup_cache()
+                h(0)
+            r = super()._clear_view_lookup_cache()
+            if h is not None:
+                h(1)
+            return r
+
+        # public seam: the attribute itself, as a property of the subclass; operations scheduled "after the
+        # attribute was read, before cache.get" run inside the getter after the value was fetched
+        @property
+        def _view_lookup_cache(self):
+            v = self.__dict__['_c15_cache']
+            w = self.__dict__.get('_c15_world')
+            if w is not None and w.stack:
+                ops = w.stack[-1]['inj'].pop(PT_GET, None)
+                if ops:
+                    w.run_ops(ops)
+            return v
+
+        @_view_lookup_cache.setter
+        def _view_lookup_cache(self, v):
+            self.__dict__['_c15_cache'] = v
 
     classes = {'A': O15A, 'B': O15B, 'C': O15C, 'D': O15D, 'E': O15E}
     _impl.update(Configurator=Configurator, Reg=Reg, IRequest=IRequest, IRouteRequest=IRouteRequest, pview=pview,
@@ -528,6 +549,7 @@ class _World:
                     self.number(sub, counter)
             else:
                 self.number(o['inj'], counter)
+                self.number(o['inj2'], counter)
 
     def add_view(self, r):
         def view(context, request):
@@ -538,6 +560,7 @@ class _World:
                              permission='p' if r['sec'] else None)
 
     def start(self):
+        self.reg.__dict__['_c15_world'] = self
         self.reg.adapters = self.proxy
         self.reg._lock = _LockProxy(self, self.reg._lock)
 
@@ -582,12 +605,11 @@ class _World:
         reg = self.reg
         saved_stack = self.stack
 
-        def hook():
-            reg.__dict__.pop('_c15_hook', None)
+        def hook(phase):
             reg.adapters = self.proxy
             self.stack = []                 # operations injected here belong to no enclosing lookup frame
             try:
-                self.run_ops(o['inj'])
+                self.run_ops(o['inj2'] if phase else o['inj'])
             finally:
                 self.stack = saved_stack
                 reg.adapters = self.real
@@ -745,7 +767,7 @@ def classify(case, obs, spec):
 def _depth(ops):
     d = 0
     for o in ops:
-        subs = [s for _, s in o['inj']] if o['t'] == 'L' else [o['inj']]
+        subs = [s for _, s in o['inj']] if o['t'] == 'L' else [o['inj'], o['inj2']]
         for s in subs:
             if s:
                 d = max(d, 1 + _depth(s))
@@ -790,12 +812,14 @@ def kinds(case, obs):
             for o in ops:
                 if o['t'] == 'L':
                     for p, sub in o['inj']:
-                        s.add('inj-lock' if p == PT_LOCK else 'inj-unlock' if p == PT_UNLOCK else 'inj-query')
+                        s.add('inj-lock' if p == PT_LOCK else 'inj-unlock' if p == PT_UNLOCK else 'inj-before-get' if p == PT_GET else 'inj-query')
                         s |= pts(sub)
                 else:
                     if o['inj']:
                         s.add('inj-before-clear')
-                    s |= pts(o['inj'])
+                    if o['inj2']:
+                        s.add('inj-after-clear')
+                    s |= pts(o['inj']) | pts(o['inj2'])
             return s
         k += sorted(pts(case['ops']))
     except Exception:
